@@ -258,6 +258,27 @@ def case_shift_near_integer(ctx, k):
         _APPROX[0] = False
 
 
+def case_shift_per_trace_nearly_equal(ctx, k):
+    """each trace receives ITS OWN shift, also when the shifts differ by a hair (k + 2^-20 and k): every trace of the 2-D call equals
+    the 1-D call with that trace's shift.  Length 3, twiddles as the rational values of their doubles, tolerance 1e-9, samples in [-1, 1]"""
+    import ibldsp.fourier as f
+    _APPROX[0] = True
+    try:
+        vals = [ctx.real(f"w{i}", -1, 1) for i in range(6)]
+        shifts = [k + 2.0 ** -20, float(k)]
+        out = ctx.call("fshift", f.fshift, arrays.mk(list(vals), shape=(2, 3), tag=np.dtype(float)), np.array(shifts), axis=-1)
+        if not ctx.oblige("shape_preserved", tuple(np.shape(out)) == (2, 3), detail={"shape": str(np.shape(out))}):
+            return
+        tol = Fraction(1, 10 ** 9)
+        for t in range(2):
+            single = ctx.call("fshift", f.fshift, arrays.mk(vals[3 * t:3 * t + 3], tag=np.dtype(float)), shifts[t])
+            for i in range(3):
+                d = out[t, i] - single[i]
+                ctx.oblige("per_trace_shift_equals_stacked_1d_calls_for_nearly_equal_shifts", and_(d <= tol, d >= -tol), detail={"trace": t, "i": i, "shifts": shifts})
+    finally:
+        _APPROX[0] = False
+
+
 def case_parabola_1d(ctx, n, imax):
     import ibldsp.utils as u
     a = ctx.real("a", -100, 100)
@@ -437,6 +458,8 @@ def cases(tier):
         cs.append(Case(f"corrmax_integer_delay_n{n}", "case_corrmax", {"n": n}, timeout_s=1500))
     for k in (1, 2, -1):
         cs.append(Case(f"shift_near_integer_total_{k}", "case_shift_near_integer", {"k": k}, timeout_s=1500))
+    for k in (1, -2):
+        cs.append(Case(f"shift_per_trace_nearly_equal_{k}", "case_shift_per_trace_nearly_equal", {"k": k}, timeout_s=1500))
     return cs
 
 
@@ -492,6 +515,23 @@ for s2 in sorted({{8 * s, 12 * s, -8 * s}} - {{0}}):
     resync2, shift2 = w.wave_shift_corrmax(wv, np.roll(wv, s2))
     print(n2, s2, shift2)
     if abs(shift2 - s2) > 0.05: reproduced(f'delay estimate {{shift2}} for a spike waveform of {{n2}} samples delayed by {{s2}} samples')
+not_reproduced()
+"""
+    if case.startswith("shift_per_trace_nearly_equal"):
+        vals = [F(m.get(f"w{i}", 0)) for i in range(6)]
+        return f"""
+import ibldsp.fourier as f
+k = {params['k']}
+bad = []
+# the witness (2 traces of 3 samples), and the same situation at a realistic size: 3 traces of 2048 samples, shifts 1500k, 1500k + 0.012, 1500k
+for w, sh in ((np.array({vals}, dtype=float).reshape(2, 3), np.array([k + 2.0 ** -20, float(k)])),
+              (np.sin(np.arange(3 * 2048).reshape(3, 2048) / 7.0) * np.hanning(2048), np.array([1500.0 * k, 1500.0 * k + 0.012, 1500.0 * k]))):
+    out = f.fshift(w.copy(), sh, axis=-1)
+    for t in range(w.shape[0]):
+        err = np.max(np.abs(out[t] - f.fshift(w[t].copy(), float(sh[t]))))
+        print(w.shape, t, err)
+        if err > 1e-8: bad.append((w.shape, t, float(err)))
+if bad: reproduced(f'a trace shifted inside a 2-D call differs from the 1-D call with its own shift (shape, trace, error): {{bad}}')
 not_reproduced()
 """
     if case.startswith("shift_near_integer"):
